@@ -143,7 +143,8 @@ extern "C" int LLVMFuzzerTestOneInput(const uint8_t* data, size_t size) {
       if (in.done() && g.rx.empty()) { if (++quiet > 8) break; } else quiet = 0;
     }
     if (!(in.done() && g.rx.empty())) fz::violation("c20-unbounded-work", "input of " + std::to_string(size) + " bytes not consumed after " + std::to_string(steps) + " handler loop iterations");
-    if (g.now - startTime > ((int64_t)size * 2 + 120) * 1000000000LL) fz::violation("c20-unbounded-work", "virtual time advanced by " + std::to_string((g.now - startTime) / 1000000000LL) + " s for " + std::to_string(size) + " bytes");
+    // (virtual time is not work: gap and device-invalid operations of the program legitimately consume seconds of it)
+    (void)startTime;
     // ---- probe: after silence (pending work is flushed with 'no signal') a valid telegram is still received
     g.failRead.clear(); g.failWrite.clear(); g.failPpoll.clear(); g.zeroRead.clear(); g.shortWrite.clear();
     { std::lock_guard<std::recursive_mutex> l(g.mtx); g.deviceValid = true; g.openFailures = 0; }
@@ -153,16 +154,15 @@ extern "C" int LLVMFuzzerTestOneInput(const uint8_t* data, size_t size) {
     g.rx.clear();
     // silence: long enough for the reconnect back-off and the signal-loss detection in every state
     for (int i = 0; i < 400 && steps < budget + 4000; i++, steps++) handler.step();
-    int64_t t = std::max(g.now, fzd.lastRx) + 50 * MS;
-    static const uint8_t probe[] = {0xaa, 0xaa, 0xaa, 0xaa, 0xaa, 0x10, 0x08, 0xb5, 0x09, 0x02, 0x0d, 0x01, 0x2f, 0x00, 0x01, 0x65, 0x16, 0x00, 0xaa, 0xaa, 0xaa};
+    int64_t t = g.now + 50 * MS;
     // CRCs computed by the spec routine to stay independent of the table
     std::vector<uint8_t> wire = {0xaa, 0xaa, 0xaa, 0xaa, 0xaa};
     { auto m = specWire({0x10, 0x08, 0xb5, 0x09, 0x02, 0x0d, 0x01}); wire.insert(wire.end(), m.begin(), m.end()); wire.push_back(0x00);
       auto s = specWire({0x01, 0x65}); wire.insert(wire.end(), s.begin(), s.end()); wire.push_back(0x00); wire.push_back(0xaa); wire.push_back(0xaa); wire.push_back(0xaa); }
-    (void)probe;
     size_t before = lis.msgs.size();
     for (uint8_t b : wire) { fzd.busByteToHost(t, b); t += SYM; }
-    for (int i = 0; i < 300 && !(g.rx.empty() && i > 40); i++, steps++) handler.step();
+    for (int i = 0; i < 3000 && !(g.rx.empty() && i > 40); i++, steps++) handler.step();
+    if (!g.rx.empty()) fz::violation("c20-unbounded-work", "the probe telegram was not consumed within 3000 handler loop iterations");
     bool found = false;
     for (size_t i = before; i < lis.msgs.size(); i++) {
       auto& m = lis.msgs[i];
